@@ -9,6 +9,27 @@ import (
 	"os"
 )
 
+// Command is a harness sub-command. Flags common to all are parsed in main.
+type Command func(a Args)
+
+// Args are the common flags.
+type Args struct {
+	Seed    int64
+	N       int
+	Out     string
+	Streams string
+	Replay  string
+	Tier    string
+}
+
+var commands = map[string]Command{}
+
+func register(name string, c Command) { commands[name] = c }
+
+func init() {
+	register("schemaops", func(a Args) { schemaOps(a.Seed, a.N, a.Out, a.Streams, a.Replay) })
+}
+
 func main() {
 	if len(os.Args) < 2 {
 		fmt.Fprintln(os.Stderr, "usage: harness <schemaops|...> [flags]")
@@ -21,12 +42,12 @@ func main() {
 	out := fs.String("out", ".", "output directory")
 	streams := fs.String("streams", "valid,random", "comma separated case streams")
 	replay := fs.String("replay", "", "replay file (a cases.jsonl written earlier): re-run those cases only")
+	tier := fs.String("tier", "quick", "quick or thorough")
 	_ = fs.Parse(os.Args[2:])
-	switch cmd {
-	case "schemaops":
-		schemaOps(*seed, *n, *out, *streams, *replay)
-	default:
+	c, ok := commands[cmd]
+	if !ok {
 		fmt.Fprintln(os.Stderr, "unknown command", cmd)
 		os.Exit(2)
 	}
+	c(Args{Seed: *seed, N: *n, Out: *out, Streams: *streams, Replay: *replay, Tier: *tier})
 }
